@@ -9,7 +9,7 @@ Assembled from parts (each builds its own Props file and runs its own ties and o
 """
 import importlib
 
-PARTS = [("checks.ops_ctor", {}), ("checks.ops_views", {"prop": "C05"}), ("checks.ops_algebra", {"prop": "C05"})]
+PARTS = [("checks.ops_ctor", {}), ("checks.ops_views", {"prop": "C05"}), ("checks.ops_algebra", {"as_pid": "C05"})]
 
 
 def _parts(ctx=None):
